@@ -563,6 +563,15 @@ namespace sim
     t_task->ready = nullptr;
   }
 
+  void sleep_ns(uint64_t ns)
+  {
+    ModelGuard g;
+    const uint64_t t = W->now + ns;
+    at(t, []() {});
+    std::function<bool()> ready = [t]() { return W->now >= t; };
+    block_until(ready, "sleep");
+  }
+
   static void task_finish()
   {
     Task* me = t_task;
